@@ -70,8 +70,11 @@ enum { K_ALLOC = 1, K_SET, K_SLICE, K_UNSLICE, K_RESET, K_RELEASE, K_AT, K_DATA,
 #define OP_FAIL(o) (((o) >> 21) & 3)
 #define OP_SALT(o) (((o) >> 23) & 255)
 
-static const size_t szval[5] = { 1, 2, 4, 8, 24 };
-static const char *const szname[5] = { "1", "2", "4", "8", "24" };
+/* element size classes; the last one is the degenerate size 0 (legal: alloc/set handle it explicitly) */
+#define NSZ 6
+#define Z_0 5
+static const size_t szval[NSZ] = { 1, 2, 4, 8, 24, 0 };
+static const char *const szname[NSZ] = { "1", "2", "4", "8", "24", "0" };
 
 /* element-count classes for alloc (set uses the small ones only) */
 enum { N_0, N_1, N_2, N_3, N_SMALL, N_MID, N_2P63, N_MAX, N_MAXM1, N_MAXDIV1, N_MAXDIV, N_HDRFIT, N_HDRFIT1,
@@ -82,6 +85,7 @@ static const char *const nmname[N_NCLS] = {
 };
 static size_t nmvalue(int c, size_t sz, unsigned salt)
 {
+    if (sz == 0) sz = 1;        /* the classes that divide by the element size are not applicable to size 0 (see st_apply) */
     switch (c) {
     case N_0: return 0;
     case N_1: return 1;
@@ -116,7 +120,7 @@ static int boundvalue(int c, const struct view *v, unsigned salt, size_t *out)
     case S_0: *out = 0; break;
     case S_1: *out = 1; break;
     case S_2: *out = 2; break;
-    case S_IN: *out = salt % (len + 1); break;
+    case S_IN: *out = len == SIZE_MAX ? salt : salt % (len + 1); break;
     case S_LENM1: if (len == 0) return 0; *out = len - 1; break;
     case S_LEN: *out = len; break;
     case S_LEN1: *out = len + 1; break;
@@ -169,14 +173,14 @@ static const size_t rs_bytes[] = { 240, 720, (size_t)1 << 16, (size_t)1 << 17, (
 static const char *const rs_bname[] = { "240", "720", "64k", "128k", "256k", "1m" };
 #define RS_NB 6
 static int c_rs[2][RS_NB];
-static int c_alloc_nm[N_NCLS], c_alloc_sz[5], c_set_sz[5], c_beg[S_NCLS], c_end[S_NCLS], c_idx[I_NCLS];
+static int c_alloc_nm[N_NCLS], c_alloc_sz[NSZ], c_set_sz[NSZ], c_beg[S_NCLS], c_end[S_NCLS], c_idx[I_NCLS];
 static void init_counters(void)
 {
     char nm[64];
     int i;
     for (i = 0; i < N_NCLS; i++) { snprintf(nm, sizeof(nm), "alloc.nm.%s", nmname[i]); c_alloc_nm[i] = vrt_counter_id(nm); }
-    for (i = 0; i < 5; i++) { snprintf(nm, sizeof(nm), "alloc.elem-size.%s", szname[i]); c_alloc_sz[i] = vrt_counter_id(nm); }
-    for (i = 0; i < 5; i++) { snprintf(nm, sizeof(nm), "set.elem-size.%s", szname[i]); c_set_sz[i] = vrt_counter_id(nm); }
+    for (i = 0; i < NSZ; i++) { snprintf(nm, sizeof(nm), "alloc.elem-size.%s", szname[i]); c_alloc_sz[i] = vrt_counter_id(nm); }
+    for (i = 0; i < NSZ; i++) { snprintf(nm, sizeof(nm), "set.elem-size.%s", szname[i]); c_set_sz[i] = vrt_counter_id(nm); }
     for (i = 0; i < S_NCLS; i++) { snprintf(nm, sizeof(nm), "slice.beg.%s", sname[i]); c_beg[i] = vrt_counter_id(nm); }
     for (i = 0; i < S_NCLS; i++) { snprintf(nm, sizeof(nm), "slice.end.%s", sname[i]); c_end[i] = vrt_counter_id(nm); }
     for (i = 0; i < I_NCLS; i++) { snprintf(nm, sizeof(nm), "at.index.%s", iname[i]); c_idx[i] = vrt_counter_id(nm); }
@@ -372,8 +376,8 @@ static size_t next_index(size_t i, size_t len)
 {
     const size_t stride = len / 41 + 1, mid = len / 2 - 1;
     size_t n;
-    if (len <= SPARSE_ABOVE || i < 7 || i + 9 > len) return i + 1;
-    n = i + stride;
+    if (len <= SPARSE_ABOVE || i < 7 || len - i < 9) return i + 1;
+    n = stride > len - 8 - i ? len - 8 : i + stride;    /* no wrap-around: views of zero-sized elements have up to SIZE_MAX elements */
     if (i < mid && n > mid) n = mid;            /* mid and mid + 1 are always visited */
     else if (i == mid) n = mid + 1;
     if (n > len - 8) n = len - 8;
@@ -418,7 +422,16 @@ static void audit_obj(int o)
                       o, i, p, (void *)b->base, off, i, b->sz, (void *)want, b->nm);
             memset(p, (int)(0x30 + (fillctr++ & 0x3f)), b->sz);       /* ASan sees a stale or short buffer */
         }
-        VRT_COUNT_N("audit.elements-written", len);
+        if (b->sz > 0) VRT_COUNT_N("audit.elements-written", len);
+        else if (len > 0) {
+            /* zero-sized elements: every address is the buffer start, nothing is written */
+            VRT_COUNT("audit.object.zero-size-elements");
+            if (off > 0) VRT_COUNT("audit.object.zero-size-elements.offset-view");
+            if (len > ((size_t)1 << 32)) VRT_COUNT("audit.object.zero-size-elements.more-than-2p32");
+        }
+        if (b->nm == 0 && b->base != NULL) {
+            if (b->external) VRT_COUNT("audit.object.nm-zero.real-external-buffer"); else VRT_COUNT("audit.object.nm-zero.library-buffer");
+        }
         if (len > SPARSE_ABOVE) VRT_COUNT("audit.object.sparse");
         if (b->nm - off > len) {
             /* inside the buffer but beyond the view */
@@ -428,7 +441,7 @@ static void audit_obj(int o)
         if (off > 0) must_abort_at(o, SIZE_MAX - off + 1, "index-wraps-to-zero");
     }
     must_abort_at(o, len, "index-eq-size");
-    must_abort_at(o, len + 1, "index-gt-size");
+    if (len < SIZE_MAX) must_abort_at(o, len + 1, "index-gt-size");     /* SIZE_MAX zero-sized elements: len + 1 is index 0 */
     must_abort_at(o, SIZE_MAX, "index-size-max");
     VRT_COUNT("audit.object");
 }
@@ -518,9 +531,14 @@ static int st_apply(uint32_t op, int audit_arg)
         const int setmode = isset ? c2 : 0;
         int xsel = -1, newx = 0, othergeom = 0;
 
-        if (szc >= 5 || c1 >= N_NCLS || fail > 2) return 0;
-        if (isset && (c1 > N_MID || setmode > 2)) return 0;
-        sz = szval[szc]; nm = nmvalue(c1, sz, salt);
+        const int old_degenerate = old >= 0 && (B[old].nm == 0 || B[old].sz == 0);
+        if (szc >= NSZ || c1 >= N_NCLS || fail > 2) return 0;
+        sz = szval[szc];
+        /* zero-sized elements: every count is representable (also for set: the block has 0 bytes), the classes derived from
+         * SIZE_MAX / sz or cap / sz do not exist */
+        if (sz == 0 && !ov_on && c1 >= N_MAXDIV1 && c1 <= N_CAP1) return 0;
+        if (isset && ((c1 > N_MID && sz != 0) || setmode > 2)) return 0;
+        nm = nmvalue(c1, sz, salt);
         if (ov_on) { sz = ov_sz; nm = ov_nm; }
         if (setmode == 1) {
             const struct buf *w;
@@ -529,7 +547,7 @@ static int st_apply(uint32_t op, int audit_arg)
             if (!w->external || w->x < 0) return 0;
             xsel = w->x;
             /* the new wrapper may describe the block differently, but never beyond it */
-            if (c1 == N_MID || nm > X[xsel].bytes / sz) nm = X[xsel].bytes / sz;
+            if (sz != 0 && (c1 == N_MID || nm > X[xsel].bytes / sz)) nm = X[xsel].bytes / sz;    /* sz 0: any count describes 0 bytes */
             othergeom = nm != w->nm || sz != w->sz;
         } else if (setmode == 2) {
             if (c1 != N_0) return 0;
@@ -572,6 +590,12 @@ static int st_apply(uint32_t op, int audit_arg)
             if (nm == 0) VRT_COUNT("set.nm-zero");
             /* a wrapper around NULL shows size 0 / data NULL like an empty object: told apart by the blocks that stayed */
             if (got == 0 && d == NULL && !(setmode == 2 && !anyfail && surviving_allocs() > 0)) {
+                /* a real buffer was supplied and no allocation failed: the object is its (sole) user now, data() reports it and
+                 * release() has to hand it back; "empty" would lose the caller's buffer (also for nm == 0 or sz == 0) */
+                if (!anyfail && ext != NULL)
+                    failk(nm == 0 ? "array.set.real-buffer-not-adopted.nm-zero" : sz == 0 ? "array.set.real-buffer-not-adopted.zero-size-elements"
+                          : "array.set.real-buffer-not-adopted",
+                          "set(a%d, %p, nm=%zu, sz=%zu) without a failed allocation left the object empty (size 0, data NULL)", a, (void *)ext, nm, sz);
                 if (anyfail) VRT_COUNT("set.failed.left-empty"); else VRT_COUNT("set.empty-without-failure");
             } else {
                 if (anyfail)
@@ -584,6 +608,11 @@ static int st_apply(uint32_t op, int audit_arg)
                 V[a].b = created; V[a].off = 0; V[a].len = nm;
                 VRT_COUNT("set.ok");
                 VRT_COUNT("buffer.external.created");
+                if (nm == 0 && ext != NULL) VRT_COUNT("set.ok.nm-zero.real-buffer");
+                if (sz == 0) {
+                    VRT_COUNT("set.ok.zero-size-elements");
+                    if (nm > ((size_t)1 << 32)) VRT_COUNT("set.ok.zero-size-elements.more-than-2p32");
+                }
                 if (setmode == 1) {
                     VRT_COUNT("set.second-wrapper-over-same-buffer");
                     if (othergeom) VRT_COUNT("set.second-wrapper-over-same-buffer.different-geometry");
@@ -592,6 +621,7 @@ static int st_apply(uint32_t op, int audit_arg)
             }
             if (onto_offset) VRT_COUNT("set.onto-slice-with-offset");
             if (onto_shared) VRT_COUNT("set.onto-shared");
+            if (old_degenerate) VRT_COUNT("set.onto-degenerate-shape");
         } else {
             const int toobig = prod > (u128)vrt_alloc_cap;
             const char *cls = prod > (u128)SIZE_MAX ? "unrepresentable" : prod > (u128)(SIZE_MAX - 4096) ? "header-unrepresentable" : "over-cap";
@@ -625,9 +655,15 @@ static int st_apply(uint32_t op, int audit_arg)
                 V[a].b = created; V[a].off = 0; V[a].len = nm;
                 VRT_COUNT("alloc.ok");
                 VRT_COUNT("buffer.internal.created");
+                if (nm == 0) VRT_COUNT("alloc.ok.nm-zero");
+                if (sz == 0) {
+                    VRT_COUNT("alloc.ok.zero-size-elements");
+                    if (nm > ((size_t)1 << 32)) VRT_COUNT("alloc.ok.zero-size-elements.more-than-2p32");
+                }
             }
             if (onto_offset) VRT_COUNT("alloc.onto-slice-with-offset");
             if (onto_shared) VRT_COUNT("alloc.onto-shared");
+            if (old_degenerate) VRT_COUNT("alloc.onto-degenerate-shape");
         }
         if (fail && anyfail) VRT_COUNT("failpoint.fired");
         settle(created);
@@ -644,6 +680,17 @@ static int st_apply(uint32_t op, int audit_arg)
                 failk("array.alloc.block-too-small", "element area starts %zu bytes into a block of %zu bytes; %zu*%zu bytes needed",
                       (size_t)((char *)d - blk), rs, nm, sz);
             VRT_COUNT("alloc.block-located");
+        } else if (!isset && created >= 0 && nm > 0) {
+            /* zero-sized elements: every element address is data(); it must lie inside, or one past the end of, a live library
+             * block made by this call */
+            size_t rs = 0;
+            int k, mine = 0;
+            char *blk = vrt_lib_block(d, &rs);
+            if (blk == NULL) blk = vrt_lib_block((char *)d - 1, &rs);
+            if (blk == NULL) failk("array.alloc.data-outside-library-blocks", "data() = %p is neither in nor one past the end of a live library block (nm=%zu sz=0)", d, nm);
+            for (k = 0; k < B[created].nblk; k++) if (B[created].blk[k] == (void *)blk) mine = 1;
+            if (!mine) failk("array.alloc.data-in-foreign-block", "data() = %p lies in a block this call did not allocate (nm=%zu sz=0)", d, nm);
+            VRT_COUNT("alloc.block-located.zero-size-elements");
         }
         break;
     }
@@ -690,6 +737,17 @@ static int st_apply(uint32_t op, int audit_arg)
                 }
                 if (a != s && sb < 0 && B[srcb].external && B[srcb].base == NULL) VRT_COUNT("slice.null-wrapper-into-empty-object");
                 if (B[srcb].external && B[srcb].base == NULL) VRT_COUNT("slice.legal.of-null-wrapper");
+                if (B[srcb].nm == 0 && B[srcb].base != NULL) {
+                    /* [0, 0) is the only legal range of a buffer without elements */
+                    if (B[srcb].external) VRT_COUNT("slice.legal.nm-zero.real-external-buffer"); else VRT_COUNT("slice.legal.nm-zero.library-buffer");
+                    if (a == s) VRT_COUNT("slice.legal.nm-zero.in-place");
+                }
+                if (B[srcb].sz == 0 && B[srcb].nm > 0) {
+                    VRT_COUNT("slice.legal.zero-size-elements");
+                    if (a == s) VRT_COUNT("slice.legal.zero-size-elements.in-place");
+                    if (off + beg > 0 && end > beg) VRT_COUNT("slice.legal.zero-size-elements.offset-result");
+                    if (off > 0 && end > V[a].len) VRT_COUNT("slice.legal.zero-size-elements.from-offset-view-beyond-view");
+                }
                 retarget(s, srcb, off + beg, end - beg);
             } else {
                 const char *why = end < beg ? "end-lt-beg" : (u128)off + end > (u128)SIZE_MAX ? "past-buffer-wrapping" : "past-buffer";
@@ -705,6 +763,11 @@ static int st_apply(uint32_t op, int audit_arg)
                 else if ((u128)off + end > (u128)SIZE_MAX) VRT_COUNT("slice.abort.past-buffer-wrapping");
                 else VRT_COUNT("slice.abort.past-buffer");
                 if (a == s) VRT_COUNT("slice.abort.in-place"); else VRT_COUNT("slice.abort.into-other");
+                if (B[srcb].nm == 0 && B[srcb].base != NULL) VRT_COUNT("slice.abort.nm-zero.real-buffer");
+                if (B[srcb].sz == 0 && B[srcb].nm > 0) {
+                    if (end < beg) VRT_COUNT("slice.abort.zero-size-elements.end-lt-beg"); else VRT_COUNT("slice.abort.zero-size-elements.past-buffer");
+                    if (off > 0 && end >= beg) VRT_COUNT("slice.abort.zero-size-elements.past-buffer.from-offset-view");
+                }
             }
         }
         settle(-1);
@@ -733,6 +796,11 @@ static int st_apply(uint32_t op, int audit_arg)
             if (a != s && sb >= 0 && sb != srcb && B[sb].external && B[srcb].external && B[sb].base == B[srcb].base)
                 VRT_COUNT("unslice.into-object-wrapping-same-base");
             if (a != s && sb < 0 && B[srcb].external && B[srcb].base == NULL) VRT_COUNT("unslice.null-wrapper-into-empty-object");
+            if (B[srcb].nm == 0 && B[srcb].base != NULL) VRT_COUNT("unslice.nm-zero.real-buffer");
+            if (B[srcb].sz == 0 && B[srcb].nm > 0) {
+                VRT_COUNT("unslice.zero-size-elements");
+                if (V[a].off > 0) VRT_COUNT("unslice.zero-size-elements.source-has-offset");
+            }
             retarget(s, srcb, 0, B[srcb].nm);
         }
         settle(-1);
@@ -790,6 +858,8 @@ static int st_apply(uint32_t op, int audit_arg)
                       a, cstl_array_size(A[a]), cstl_array_data(A[a]));
             if (V[a].off > 0) VRT_COUNT("release.returned-buffer.from-offset-view");
             VRT_COUNT("release.returned-buffer");
+            if (B[b].nm == 0) VRT_COUNT("release.returned-buffer.nm-zero");
+            if (B[b].sz == 0) VRT_COUNT("release.returned-buffer.zero-size-elements");
             retarget(a, -1, 0, 0);
         } else {
             if (!withnull && out != NULL) {
@@ -798,7 +868,11 @@ static int st_apply(uint32_t op, int audit_arg)
                 failk(key, "release(a%d) returned %p; object is %s", a, out, bufclass(a));
             }
             if (b < 0) VRT_COUNT("release.null.empty-object");
-            else if (B[b].external) VRT_COUNT("release.null.external-shared");
+            else if (B[b].external) {
+                VRT_COUNT("release.null.external-shared");
+                if (B[b].nm == 0 && B[b].base != NULL) VRT_COUNT("release.null.external-shared.nm-zero.real-buffer");
+                if (B[b].sz == 0) VRT_COUNT("release.null.external-shared.zero-size-elements");
+            }
             else if (refs(b) > 1) VRT_COUNT("release.null.internal-shared");
             else VRT_COUNT("release.null.internal-sole");
             /* nothing may have changed: no allocator traffic (settle) and the full audit below */
@@ -825,6 +899,7 @@ static int st_apply(uint32_t op, int audit_arg)
                 failk("array.at.address", "at(a%d, %zu) = %p, expected base %p + (%zu+%zu)*%zu", a, i, p, (void *)b->base, V[a].off, i, b->sz);
             memset(p, 0x2a, b->sz);
             VRT_COUNT("at.in-range");
+            if (b->sz == 0) { VRT_COUNT("at.in-range.zero-size-elements"); if (V[a].off + i > 0) VRT_COUNT("at.in-range.zero-size-elements.offset-plus-index-nonzero"); }
         } else {
             VRT_COUNT("abort.expected.at");
             if (!ab) {
@@ -835,6 +910,8 @@ static int st_apply(uint32_t op, int audit_arg)
             }
             VRT_COUNT("abort.observed.at");
             VRT_COUNT("at.out-of-range");
+            if (V[a].b >= 0 && B[V[a].b].sz == 0 && B[V[a].b].nm > 0) VRT_COUNT("at.out-of-range.zero-size-elements");
+            if (V[a].b >= 0 && B[V[a].b].nm == 0 && B[V[a].b].base != NULL) VRT_COUNT("at.out-of-range.nm-zero.real-buffer");
         }
         settle(-1);
         return 1;
@@ -932,6 +1009,9 @@ static const struct cscope quick_scopes[] = {
     { 3, 2, M(0), M(N_2), M(N_2), M(S_0) | M(S_1), M(S_1) | M(S_REM) | M(S_REM1), 0, 60000, 12, M(N_MID), 1 },
     /* four objects, three buffers, short histories (bounded-exhaustive) */
     { 4, 3, M(1), M(N_2) | M(N_MAXDIV1), M(N_2), M(S_0) | M(S_1), M(S_2) | M(S_REM1) | M(S_WRAPREM), 0, 60000, 4, M(N_MID), 1 },
+    /* degenerate shapes: element size 0 next to size 2, counts 0 and 3, library and real external buffers, second wrappers, NULL */
+    { 2, 2, M(Z_0) | M(1), M(N_0) | M(N_3), M(N_0) | M(N_3), M(S_0) | M(S_1) | M(S_LEN),
+      M(S_0) | M(S_1) | M(S_2) | M(S_LEN) | M(S_REM) | M(S_REM1) | M(S_MAXOFF1) | M(S_WRAPREM), 0, 60000, 12, M(N_1), 1 },
 };
 static const struct cscope thorough_scopes[] = {
     { 2, 2, M(0) | M(4), M(N_0) | M(N_1) | M(N_3) | HUGE_NM | M(N_MAXM1) | M(N_HDRFIT) | M(N_2P32), M(N_0) | M(N_3),
@@ -947,6 +1027,11 @@ static const struct cscope thorough_scopes[] = {
     /* separate wrappers over one block with two element sizes (different geometry), NULL wrappers */
     { 2, 2, M(0) | M(2), M(N_3), M(N_0) | M(N_3), M(S_0) | M(S_1),
       M(S_0) | M(S_1) | M(S_2) | M(S_LEN) | M(S_REM) | M(S_REM1), 0, 400000, 12, M(N_1) | M(N_MID), 1 },
+    /* degenerate shapes (see quick_scopes); three objects sharing buffers of zero-sized elements; SIZE_MAX / 2^63 zero-sized elements */
+    { 2, 2, M(Z_0) | M(1), M(N_0) | M(N_3), M(N_0) | M(N_3), M(S_0) | M(S_1) | M(S_LEN),
+      M(S_0) | M(S_1) | M(S_2) | M(S_LEN) | M(S_REM) | M(S_REM1) | M(S_MAXOFF1) | M(S_WRAPREM), 1, 400000, 12, M(N_1), 1 },
+    { 3, 2, M(Z_0), M(N_0) | M(N_2), M(N_0) | M(N_2), M(S_0) | M(S_1), M(S_0) | M(S_1) | M(S_REM) | M(S_REM1), 0, 400000, 12, M(N_1), 1 },
+    { 2, 2, M(Z_0), M(N_3) | M(N_MAX) | M(N_2P63), M(N_MAX), BEG_CORE, ALL_BOUNDS, 0, 400000, 3, 0, 0 },
 };
 static const struct cscope *scopes;
 static int nscopes;
@@ -956,7 +1041,7 @@ static int build_alphabet(const struct cscope *sc, uint32_t *al)
 {
     int n = 0, a, s, c, c2, z, f;
     for (a = 0; a < sc->nobj; a++) {
-        for (z = 0; z < 5; z++) if (sc->szmask >> z & 1) {
+        for (z = 0; z < NSZ; z++) if (sc->szmask >> z & 1) {
             for (c = 0; c < N_NCLS; c++) if (sc->anm >> c & 1) {
                 al[n++] = OP(K_ALLOC, a, 0, c, 0, z, 0, 0);
                 if (sc->failpoints && (c == N_3 || c == N_2)) for (f = 1; f <= 2; f++) al[n++] = OP(K_ALLOC, a, 0, c, 0, z, f, 0);
@@ -1034,7 +1119,8 @@ static void run_random(uint64_t idx)
         uint32_t op;
         int a = (int)vrt_below(&g, no), s;
         const unsigned salt = vrt_below(&g, 256);
-        const int z = (int)vrt_below(&g, 5);
+        /* element size class: 1 in 8 the degenerate size 0 */
+        const int z = vrt_chance(&g, 1, 8) ? Z_0 : (int)vrt_below(&g, 5);
         unsigned r = vrt_below(&g, 100);
         if (i % 128 == 0) phase = (int)vrt_below(&g, 3);       /* 0 balanced, 1 slice heavy, 2 churn */
         if (phase == 1 && r < 30) r = 30 + vrt_below(&g, 40);
@@ -1050,12 +1136,15 @@ static void run_random(uint64_t idx)
             unsigned q = vrt_below(&g, 100);
             if (q < 50) c = N_SMALL; else if (q < 56) c = N_0; else if (q < 62) c = N_1; else if (q < 68) c = N_3;
             else if (q < 71) c = N_MID; else c = N_2P63 + (int)vrt_below(&g, N_NCLS - N_2P63);
+            /* zero-sized elements: no SIZE_MAX / sz classes, every count can be had */
+            if (z == Z_0 && c >= N_MAXDIV1 && c <= N_CAP1) c = (c & 1) ? N_MAX : N_2P32;
             op = OP(K_ALLOC, a, 0, c, 0, z, f, salt);
         } else if (r < 26) {
             int c, f = vrt_chance(&g, 1, 6) ? 1 + (int)vrt_below(&g, 2) : 0;
             unsigned q = vrt_below(&g, 100);
             unsigned q2 = vrt_below(&g, 12);
             if (q < 70) c = N_SMALL; else if (q < 78) c = N_0; else if (q < 86) c = N_1; else if (q < 96) c = N_3; else c = N_MID;
+            if (z == Z_0 && q < 20) c = q < 8 ? N_MAX : q < 14 ? N_2P63 : N_2P32;      /* a block of 0 bytes holds any number of them */
             if (q2 < 3) {
                 /* a second, separate wrapper over a block some object already wraps (any geometry that fits) */
                 int k, src = (int)vrt_below(&g, no);
@@ -1660,6 +1749,21 @@ static const char *const required[] = {
     "reshape.same-shape-again", "reshape.same-shape-again.sole-owner.128k-or-more", "reshape.same-bytes.other-elem-size",
     "reshape.same-bytes.other-elem-size.sole-owner.128k-or-more", "reshape.same-bytes.other-elem-size.coowned.128k-or-more",
     "reshape.same-bytes.count-and-size-exchanged", "reshape.same-bytes.rewrapped-own-block", "reshape.slightly-smaller", "reshape.slightly-larger",
+    /* degenerate shapes: no elements (real buffer), zero-sized elements */
+    "alloc.elem-size.0", "set.elem-size.0", "alloc.ok.nm-zero", "alloc.ok.zero-size-elements", "alloc.ok.zero-size-elements.more-than-2p32",
+    "alloc.block-located.zero-size-elements", "set.ok.nm-zero.real-buffer", "set.ok.zero-size-elements", "set.ok.zero-size-elements.more-than-2p32",
+    "alloc.onto-degenerate-shape", "set.onto-degenerate-shape",
+    "audit.object.zero-size-elements", "audit.object.zero-size-elements.offset-view", "audit.object.zero-size-elements.more-than-2p32",
+    "audit.object.nm-zero.real-external-buffer", "audit.object.nm-zero.library-buffer",
+    "slice.legal.nm-zero.real-external-buffer", "slice.legal.nm-zero.library-buffer", "slice.legal.nm-zero.in-place", "slice.abort.nm-zero.real-buffer",
+    "slice.legal.zero-size-elements", "slice.legal.zero-size-elements.in-place", "slice.legal.zero-size-elements.offset-result",
+    "slice.legal.zero-size-elements.from-offset-view-beyond-view",
+    "slice.abort.zero-size-elements.end-lt-beg", "slice.abort.zero-size-elements.past-buffer", "slice.abort.zero-size-elements.past-buffer.from-offset-view",
+    "unslice.nm-zero.real-buffer", "unslice.zero-size-elements", "unslice.zero-size-elements.source-has-offset",
+    "release.returned-buffer.nm-zero", "release.returned-buffer.zero-size-elements",
+    "release.null.external-shared.nm-zero.real-buffer", "release.null.external-shared.zero-size-elements",
+    "at.in-range.zero-size-elements", "at.in-range.zero-size-elements.offset-plus-index-nonzero", "at.out-of-range.zero-size-elements",
+    "at.out-of-range.nm-zero.real-buffer",
     /* very many views of one buffer */
     "manyviews.histories", "manyviews.more-than-65537-referrers", "manyviews.checkpoint.library", "manyviews.checkpoint.external",
     "manyviews.up.referrers-255", "manyviews.up.referrers-256", "manyviews.up.referrers-257",
